@@ -310,13 +310,24 @@ def zleaf_inputs(config, cuts=None):
     return zs, qs, bs
 
 
+class LazyLeaves(dict):
+    """leaf values looked up on demand: only the branch of a conditional that is taken needs its options"""
+
+    def __init__(self, config, extra=None):
+        super().__init__()
+        self.config, self.extra = config, extra or {}
+
+    def __missing__(self, name):
+        if name in self.extra:
+            v = self.extra[name]
+        else:
+            v = leaf_values(self.config, [(name, None)])[name]
+        self[name] = v
+        return v
+
+
 def quantity(gen, name, config, extra=None):
-    """double-precision value of one generated quantity of Gen_Scaling (e.g. 'angle', 'e1') for a configuration"""
+    """double-precision value of one generated quantity of Gen_Scaling (e.g. 'angle', 'e1') for a configuration
+    {option: value}; options of branches that are not taken need not be given (KeyError otherwise)"""
     e = unjson(info(gen)["quantities"][name])
-    L = {}
-    for n, ty in leaves_of(e):
-        if extra and n in extra:
-            L[n] = extra[n]
-    rest = [(n, ty) for n, ty in leaves_of(e) if n not in L]
-    L.update(leaf_values(config, rest))
-    return ev(e, L)
+    return ev(e, LazyLeaves(config, extra))
